@@ -35,7 +35,13 @@ def merged_items(items):
 
 def run(ck, rng):
     exe = build_godriver()
-    forests = enum_forests(4 if ck.tier == "quick" else 5) + wide_forests(10)[::3]
+    forests = enum_forests(4 if ck.tier == "quick" else 5) + wide_forests(10)[::3] + deep_forests(depths=(64, 65, 66, 130))
+    # many roots (an implementation may treat the roots in chunks or in parallel from some number on)
+    for nr in (63, 64, 65, 66, 67, 130, 257):
+        many = []
+        for r in range(nr):
+            many += [(1, b"root%03d" % r), (2, b"a"), (3, b"b"), (2, b"c")]
+        forests.append(many)
     for _ in range(250 if ck.tier == "quick" else 6000):
         forests.append(gen_forest(rng, max_nodes=14 if rng.random() < 0.8 else 40, pool=rng.choice(["mixed", "ascii", "fs", "fs_hostile"])))
     cases, mcases, specs, texts, meta = [], [], [], [], []
